@@ -519,3 +519,36 @@ def check(model, rep, tier):
           ok = True
   rep.check(ok, 'CALL-OPTS', '%s:default-options' % cc.site,
             'options must default to caller_fn_scope.callopts', line=cc.node.lineno)
+
+  # ---- the allow-list row for methods goes by the class that *defines* them
+  gd = model.func('malt/pyct/inspect_utils.py', 'getdefiningclass')
+  gp = gd.params()
+  loops = [n for n in core.walk_no_nested(gd.node) if isinstance(n, ast.For)]
+  ok = len(loops) == 1 and len(gp) == 2
+  facts = {}
+  if ok:
+    lp = loops[0]
+    facts['iterates'] = tpl.xnorm(gd, lp.iter, lp.iter)
+    ok = facts['iterates'] == 'inspect.getmro(%s)' % gp[1] and isinstance(
+        lp.target, ast.Name) and not lp.orelse
+    # first match wins: a return of the loop variable under a membership test
+    rets = [r for r in ast.walk(lp) if isinstance(r, ast.Return)]
+    ok = ok and len(rets) == 1 and isinstance(rets[0].value, ast.Name) and \
+        rets[0].value.id == lp.target.id and not any(
+            isinstance(x, (ast.Break, ast.Continue)) for x in ast.walk(lp))
+    tail = [r for r in gd.node.body if isinstance(r, ast.Return)]
+    ok = ok and len(tail) == 1 and core.norm(tail[0].value) == gp[1]
+  rep.check(ok, 'CALL-POLICY', '%s:first-class-of-the-full-mro' % gd.site,
+            'the class that defines a method is the first class of the owner\'s '
+            'complete MRO (the owner included) whose namespace has the name; '
+            'skipping the owner attributes a user override to an allow-listed '
+            'base class and runs it unconverted', facts, line=gd.node.lineno,
+            witness='class Mine(collections.OrderedDict): def update(self, ...) '
+            '-- Mine().update called from converted code')
+
+  # ---------------------------------------------------------------- dependencies
+  rep.depends('C10', ['CACHE-ALLOWLIST'],
+              'the first policy row is the negative cache: it must identify the '
+              'callable, and remember only decisions that depend on it')
+  rep.depends('C16', ['CTX-PUSHPOP', 'CTX-WITH', 'CTX-TLS'],
+              'the second policy row reads the current conversion status')
